@@ -122,5 +122,95 @@ theorem invNode_invalidated {w : World Val Err Op} (hwf : WF w) {q : PId} {i : N
     exact ⟨nd, ⟨List.mem_of_getElem? hn, hhit⟩, hself⟩
   rw [invNode_dirtyObj, this]; simp
 
+/-! ### the invalidators registered after a `_sync_refs` watcher -/
+
+theorem invalidateFrom_get (w : World Val Err Op) (q : PId) (k : Nat) (i : Nat) :
+    (invalidateFrom w q k).nodes[i]? = (w.nodes[i]?).map fun nd => invNodeFrom w q k nd i := by
+  simp only [invalidateFrom, List.getElem?_map, List.getElem?_zipIdx]
+  cases w.nodes[i]? <;> simp
+
+theorem invNodeFrom_stat (w : World Val Err Op) (q : PId) (k : Nat) (nd : Node Val Err Op) (i : NId) :
+    (invNodeFrom w q k nd i).toNStat = nd.toNStat := by
+  simp only [invNodeFrom]
+  split <;> split <;> split <;> rfl
+
+theorem invNodeFrom_current (w : World Val Err Op) (q : PId) (k : Nat) (nd : Node Val Err Op) (i : NId) :
+    (invNodeFrom w q k nd i).current = nd.current := by
+  simp only [invNodeFrom]
+  split <;> split <;> split <;> rfl
+
+theorem invNodeFrom_dirty (w : World Val Err Op) (q : PId) (k : Nat) (nd : Node Val Err Op) (i : NId) :
+    (invNodeFrom w q k nd i).dirty = (nd.dirty || (decide (k ≤ i) && nd.iparams.contains q)) := by
+  simp only [invNodeFrom]
+  split <;> split <;> split <;> simp_all
+
+theorem invNodeFrom_dirtyObj (w : World Val Err Op) (q : PId) (k : Nat) (nd : Node Val Err Op) (i : NId) :
+    (invNodeFrom w q k nd i).dirtyObj = (nd.dirtyObj || (rootsHitFrom w q k).contains i) := by
+  simp only [invNodeFrom]
+  split <;> split <;> split <;> simp_all
+
+theorem invNodeFrom_error (w : World Val Err Op) (q : PId) (k : Nat) (nd : Node Val Err Op) (i : NId) :
+    (invNodeFrom w q k nd i).error =
+      if (decide (k ≤ i) && hitObj w q nd) || (decide (k ≤ i) && nd.iparams.contains q) then none else nd.error := by
+  simp only [invNodeFrom]
+  cases hk : decide (k ≤ i) <;> cases hh : hitObj w q nd <;> cases hc : nd.iparams.contains q <;>
+    simp only [Bool.and_true, Bool.and_false, Bool.false_and, Bool.true_and, Bool.or_self, Bool.or_true, Bool.or_false,
+      Bool.false_eq_true, if_true, if_false, hc] <;> split <;> rfl
+
+theorem staticEq_invalidateFrom (w : World Val Err Op) (q : PId) (k : Nat) : StaticEq w (invalidateFrom w q k) := by
+  refine ⟨rfl, rfl, rfl, rfl, rfl, rfl, rfl, fun i => ?_⟩
+  rw [invalidateFrom_get]
+  cases w.nodes[i]? with
+  | none => rfl
+  | some nd => simp [invNodeFrom_stat]
+
+theorem cohAt_invNodeFrom {S : Sem Val Err Op} {env : PId → Val} {cells : List (Option Val)} (w : World Val Err Op)
+    (q : PId) (k : Nat) (nd : Node Val Err Op) (i : NId) (hsub : ∀ q ∈ nd.fnParams, q ∈ nd.iparams)
+    (h : CohAt S env cells nd) : CohAt S env cells (invNodeFrom w q k nd i) := by
+  have es : (invNodeFrom w q k nd i).toNStat = nd.toNStat := invNodeFrom_stat w q k nd i
+  have eexpr : (invNodeFrom w q k nd i).expr = nd.expr := by
+    rw [show (invNodeFrom w q k nd i).expr = (invNodeFrom w q k nd i).toNStat.expr from rfl, es]
+  have eprev : (invNodeFrom w q k nd i).prev = nd.prev := by
+    rw [show (invNodeFrom w q k nd i).prev = (invNodeFrom w q k nd i).toNStat.prev from rfl, es]
+  have ecell : (invNodeFrom w q k nd i).cell = nd.cell := by
+    rw [show (invNodeFrom w q k nd i).cell = (invNodeFrom w q k nd i).toNStat.cell from rfl, es]
+  constructor
+  · intro he hd
+    rw [invNodeFrom_dirty] at hd
+    rw [invNodeFrom_error] at he
+    simp only [Bool.or_eq_false_iff] at hd
+    have hh : (decide (k ≤ i) && hitObj w q nd) = false := by
+      cases hk : decide (k ≤ i) with
+      | false => rfl
+      | true =>
+        cases hh : hitObj w q nd with
+        | false => rfl
+        | true =>
+          have := hitObj_iparams hsub hh
+          rw [hk, this] at hd; simp at hd
+    simp only [hh, hd.2, Bool.or_self, Bool.false_eq_true, if_false] at he
+    rw [eexpr, invNodeFrom_current]
+    exact h.val he hd.1
+  · intro e he
+    rw [invNodeFrom_error] at he
+    split at he
+    · cases he
+    · rw [eexpr]; exact h.err e he
+  · intro hp hd v hv
+    rw [invNodeFrom_dirtyObj] at hd
+    simp only [Bool.or_eq_false_iff] at hd
+    rw [eexpr]
+    exact h.cell (eprev ▸ hp) hd.1 v (ecell ▸ hv)
+
+theorem invalidated_invNodeFrom (w : World Val Err Op) (q : PId) (k : Nat) (nd : Node Val Err Op) (i : NId)
+    (h : Invalidated nd) : Invalidated (invNodeFrom w q k nd i) := by
+  refine ⟨(by rw [invNodeFrom_dirty, h.1]; rfl), ?_, fun hp => ?_⟩
+  · rw [invNodeFrom_error]; split
+    · rfl
+    · exact h.2.1
+  · have : nd.prev = none := by
+      rw [← hp, show (invNodeFrom w q k nd i).prev = (invNodeFrom w q k nd i).toNStat.prev from rfl, invNodeFrom_stat]
+    rw [invNodeFrom_dirtyObj, h.2.2 this]; rfl
+
 end
 end ParamVerif.Rx
